@@ -8,6 +8,7 @@ import (
 	"runtime/debug"
 	"strconv"
 	"strings"
+	"sync"
 	"time"
 
 	"github.com/ChrisTrenkamp/xsel/store"
@@ -23,7 +24,7 @@ import (
 func init() {
 	Register(&Monitor{
 		ID: "C10",
-		Rule: "scripted parser.Parser streams generated from abstract documents (nesting, namespace declarations incl. overrides of inherited prefixes and repeats within one element, attributes, text incl. adjacent text, comments, PIs, top-level non-element nodes, surplus end events at the root, flat streams up to 10^5..10^7 events (children of one element: text/comment/element, and elements that each carry namespace declarations and an attribute), chains up to depth 10^4) -> store.CreateInMemory; " +
+		Rule: "scripted parser.Parser streams generated from abstract documents (nesting, namespace declarations incl. overrides of inherited prefixes and repeats within one element, attributes, text incl. adjacent text, comments, PIs, top-level non-element nodes, surplus end events at the root, flat streams up to 10^5..10^7 events (children of one element: text/comment/element, and elements that each carry namespace declarations and an attribute), chains up to depth 10^4) -> store.CreateInMemory; every eighth case builds two documents whose builds overlap (one built inside a Pull of the other, or two builders alternating event by event on two goroutines) and each tree must still be its own stream's; " +
 			"oracles: (1) parallel walk tree==document, every cursor reachable once; (2) Pos() unique, 0 only for root, strictly increasing in document order element<ns<attrs<children<following; (3) Parent() of every listed cursor is the lister; (4) namespace prefix map per element = inherited overridden by prefix; " +
 			"(5) trace monitor: call depth sampled inside Pull() <= 96 + 8*nesting depth; (6) child process with 64 MiB max stack survives the flat builds. distinct_nontrivial = distinct document shape signatures with >= 3 nodes",
 		Assumptions: []string{"runtime.Callers depth is a faithful proxy for goroutine stack use", "a Namespace event with empty prefix and empty value means 'no default namespace here' (xmlns=\"\"): it overrides an inherited default namespace by prefix and is itself not a namespace node — the meaning the store documents since its repair"},
@@ -157,7 +158,95 @@ func describeParent(m *bridge.Map, x store.Cursor) string {
 	return "a cursor outside the tree (" + bridge.Describe(p) + ")"
 }
 
+// c10Overlap builds two documents whose builds overlap in time: either the second one is built
+// completely inside one Pull of the first (a parser that assembles a sub-document), or the two
+// builders run on two goroutines in strict alternation, one pulled event each (deterministic
+// hand-over, never truly parallel). Each tree must equal the one its own stream describes.
+func c10Overlap(r *evid.Run, idx int, g *rng.R, tier string) {
+	dA, evA := c10Doc(g, tier)
+	dB, evB := c10Doc(g, tier)
+	build := func(p *adoc.Scripted) (root *store.InMemory, err error) {
+		defer func() {
+			if pp := recover(); pp != nil {
+				err = fmt.Errorf("PANIC escaped CreateInMemory: %v", pp)
+			}
+		}()
+		return store.CreateInMemory(p)
+	}
+	var rootA, rootB *store.InMemory
+	var errA, errB error
+	mode := "nested"
+	if g.Bool() {
+		at := g.Intn(len(evA) + 1)
+		pa := &adoc.Scripted{Evs: evA}
+		pa.OnPull = func(i int, ev *adoc.Event) {
+			if i == at {
+				rootB, errB = build(&adoc.Scripted{Evs: evB})
+			}
+		}
+		rootA, errA = build(pa)
+	} else {
+		mode = "alternating"
+		var mu sync.Mutex
+		cond := sync.NewCond(&mu)
+		turn := 0
+		done := [2]bool{}
+		hand := func(me int) func(int, *adoc.Event) {
+			return func(int, *adoc.Event) {
+				mu.Lock()
+				turn = 1 - me
+				cond.Broadcast()
+				for turn != me && !done[1-me] {
+					cond.Wait()
+				}
+				mu.Unlock()
+			}
+		}
+		finish := func(me int) {
+			mu.Lock()
+			done[me] = true
+			turn = 1 - me
+			cond.Broadcast()
+			mu.Unlock()
+		}
+		var wg sync.WaitGroup
+		wg.Add(2)
+		go func() {
+			defer wg.Done()
+			defer finish(0)
+			rootA, errA = build(&adoc.Scripted{Evs: evA, OnPull: hand(0)})
+		}()
+		go func() {
+			defer wg.Done()
+			defer finish(1)
+			rootB, errB = build(&adoc.Scripted{Evs: evB, OnPull: hand(1)})
+		}()
+		wg.Wait()
+	}
+	r.Eval(2)
+	r.Count("overlapping_builds/"+mode, 1)
+	r.Sig("overlap|"+mode+"|"+dA.Shape()+"|"+dB.Shape(), true)
+	for k, t := range []struct {
+		root *store.InMemory
+		err  error
+		d    *adoc.Doc
+	}{{rootA, errA, dA}, {rootB, errB, dB}} {
+		which := []string{"first", "second"}[k]
+		if t.err != nil {
+			r.Violate("overlap/build-error", map[string]any{"case": idx, "what": fmt.Sprintf("%s overlapping builds: CreateInMemory failed for the %s stream: %s", mode, which, errStr(t.err)), "document": t.d.Dump()})
+			continue
+		}
+		if class, what := checkStore(t.root, t.d); class != "" {
+			r.Violate("overlap/"+class, map[string]any{"case": idx, "what": fmt.Sprintf("%s overlapping builds, %s tree: %s", mode, which, what), "document": t.d.Dump(), "other_document": []*adoc.Doc{dB, dA}[k].Dump()})
+		}
+	}
+}
+
 func c10Case(r *evid.Run, tier string, idx int, g *rng.R) {
+	if idx%8 == 5 {
+		c10Overlap(r, idx, g, tier)
+		return
+	}
 	d, evs := c10Doc(g, tier)
 	maxExcess, samples := 0, 0
 	var worst string
